@@ -206,6 +206,8 @@ type c07inst struct {
 		set  core.ParSignedDataSet
 	}
 	hook func(what string) // scheduling point inside subscribers (Part B)
+	// keys that lost an entry through the per-share cap of never-expiring duties
+	evicted map[key]bool
 }
 
 func c07new(t int, dl core.Deadliner) *c07inst {
@@ -270,9 +272,28 @@ func c07checkSet(typ core.DutyType, t int, v core.PubKey, l []core.ParSignedData
 	return nil
 }
 
+// c07onlyEvicted: after is before minus entries of shares that store in this batch (order otherwise unchanged).
+func c07onlyEvicted(before, after []core.ParSignedData, set core.ParSignedDataSet) bool {
+	storing := map[int]bool{}
+	for _, p := range set {
+		storing[p.ShareIdx] = true
+	}
+	j := 0
+	for _, b := range before {
+		if j < len(after) && c07id(after[j]) == c07id(b) {
+			j++
+			continue
+		}
+		if !storing[b.ShareIdx] {
+			return false
+		}
+	}
+	return j == len(after)
+}
+
 // c07step applies one call and checks it against the state before/after. Sequential use only.
 func (in *c07inst) c07step(c c07call) (viol []c07viol) {
-	duty := c07duty(c.Kind)
+	duty := c.duty()
 	before := c07snap(in.db)
 	nTr, nIn := len(in.trigs), len(in.internal)
 	set := c.set()
@@ -331,6 +352,13 @@ func (in *c07inst) c07step(c c07call) (viol []c07viol) {
 	}
 	for k := range after {
 		if !touched[k] && strings.Join(c07ids(before[k]), "|") != strings.Join(c07ids(after[k]), "|") {
+			if c.Kind == c07Exit && c07onlyEvicted(before[k], after[k], set) {
+				if in.evicted == nil {
+					in.evicted = map[key]bool{}
+				}
+				in.evicted[k] = true
+				continue // by design: never-expiring duties are capped per share, the storing share's oldest entry is evicted
+			}
 			bad("kind=unrelated-key-changed", "key %v changed although it was not in the batch", k)
 		}
 	}
@@ -424,6 +452,28 @@ func c07runSeq(t int, rot int, calls []c07call) (viol []c07viol, at int) {
 	for i, c := range calls {
 		if v := in.c07step(c); len(v) > 0 {
 			return v, i
+		}
+		// history oracle ("exactly once", over the whole sequence and independent of what is still stored): no subscriber is
+		// ever triggered twice for one duty and validator
+		type dk struct {
+			duty core.Duty
+			pk   core.PubKey
+		}
+		seen := map[dk]int{}
+		for _, tr := range in.trigs {
+			if tr.sub != 0 {
+				continue
+			}
+			for pk := range tr.out {
+				seen[dk{tr.duty, pk}]++
+				if seen[dk{tr.duty, pk}] == 2 {
+					cause := ""
+					if in.evicted[key{Duty: tr.duty, PubKey: pk}] {
+						cause = " cause=redelivery-after-cap-eviction"
+					}
+					return []c07viol{{"kind=trigger-duplicate across-history duty=" + tr.duty.Type.String() + cause, fmt.Sprintf("validator %s of duty %v was triggered a second time during call %d", pk, tr.duty, i)}}, i
+				}
+			}
 		}
 	}
 	return nil, -1
@@ -671,6 +721,25 @@ func c07partA(e *schedx.Explorer) {
 			}
 			if mine() {
 				rec(nil)
+			}
+		}
+		// Never-expiring duties are capped per (share, validator, type): ten later duties of one share evict its entry of the
+		// first duty. Every choice of the share that does so after the first duty's threshold was reached, followed by a
+		// re-delivery of its evicted partial.
+		if mine() {
+			for s := 1; s <= n; s++ {
+				var calls []c07call
+				for q := 1; q <= t; q++ {
+					calls = append(calls, c07call{Kind: c07Exit, Slot: 100, Entries: []c07entry{{"A", q, 1}}})
+				}
+				if s > t {
+					calls = append(calls, c07call{Kind: c07Exit, Slot: 100, Entries: []c07entry{{"A", s, 1}}})
+				}
+				for k := uint64(1); k <= 10; k++ {
+					calls = append(calls, c07call{Kind: c07Exit, Slot: 100 + k, Entries: []c07entry{{"A", s, 1}}})
+				}
+				calls = append(calls, c07call{Kind: c07Exit, Slot: 100, Entries: []c07entry{{"A", s, 1}}})
+				a.run(n, t, 0, calls)
 			}
 		}
 	}
